@@ -84,6 +84,10 @@ def parse_via_file(text):
     return o
 
 
+TOKENS_NOT_PINNED = ("text: without well-formed multi-line block", "lone CR in multi-line", "lone CR", "TEXT: not lower case",
+                     "CR inside hash comment")
+
+
 def compare(text, via_file=False):
     """Returns (status, bucket, detail). status: 'skip' / 'ok' / 'fail'."""
     o = parse_via_file(text) if via_file else impl.parse_outcome(text)
@@ -92,6 +96,11 @@ def compare(text, via_file=False):
     r = analyze(text)
     if any(w == "repeated-tag" for _, w in r.unspec):
         return "skip-repeated-tag", None, None, None
+    if any(w in TOKENS_NOT_PINNED for _, w in r.unspec):
+        # where one token ends and the next begins is itself unspecified here (a
+        # multi-line block with bare CR line breaks, 'text:' that starts no
+        # well-formed block): the reference has no tree to compare with
+        return "skip-token-boundaries-unspecified", None, None, None
     nodes, consumed, err = parse_generic(r.tokens)
     if err is not None or consumed != len(r.tokens):
         return "skip-ungrammatical", None, None, None
